@@ -152,9 +152,9 @@ impl Style {
     #[inline]
     pub fn render_reset(self) -> impl core::fmt::Display + Copy {
         if self != Self::new() {
-            RESET
+            ResetDisplay(RESET)
         } else {
-            ""
+            ResetDisplay("")
         }
     }
 
@@ -416,6 +416,17 @@ impl core::fmt::Display for Style {
         } else {
             self.fmt_to(f)
         }
+    }
+}
+
+/// Like `&str` but ignoring width, fill, alignment and precision, as the style itself does
+#[derive(Copy, Clone, Default, Debug)]
+struct ResetDisplay(&'static str);
+
+impl core::fmt::Display for ResetDisplay {
+    #[inline]
+    fn fmt(&self, f: &mut core::fmt::Formatter<'_>) -> core::fmt::Result {
+        f.write_str(self.0)
     }
 }
 
